@@ -7,6 +7,30 @@ ROOT = os.path.dirname(os.path.dirname(os.path.abspath(__file__)))
 
 # id -> (engine, category, technique, level text, level note, design ref)
 CHECKS = {
+    "C06": ("E1+E5", "exploration",
+            "Hypothesis-generated operation histories against a candidate-set reference model, line-count fuel as termination oracle, bounded-exhaustive short histories",
+            "Generated histories of all mapping operations are run against the real LRUCache and a non-deterministic "
+            "reference (content + admissible recency orders); size bound, values, exact LRU victim, iteration order, KeyError "
+            "parity and termination (fuel, no clock) are checked after every operation. All short histories over 3 keys for "
+            "capacities 1..2 are enumerated. Sampled beyond that.",
+            "Trusts the reference model in vf/props/cachemodel.py; accepts every behaviour the statement leaves open "
+            "(membership counting or not, any recency order after values/items/==).",
+            "DESIGN.md §4 C06"),
+    "C07": ("E1+E5", "exploration",
+            "Hypothesis-generated operation histories against a candidate-set reference model (use counts), fuel oracle, bounded-exhaustive short histories",
+            "As C06 for LFUCache: latest stored value returned, exactly one victim with minimal use count among admissible "
+            "count models, iteration non-decreasing in count, views agree with content and terminate.",
+            "Trusts the reference model in vf/props/cachemodel.py; ties among victims and count perturbation by views "
+            "(unchanged or +1 for every present key) are admissible.",
+            "DESIGN.md §4 C07"),
+    "C08": ("E1+E5", "exploration",
+            "Hypothesis-generated operation histories compared by node identity with a Python list; link/len invariants after every step; bounded-exhaustive short histories; long runs of equal payloads",
+            "Every mutator of DoublyLinkedList is driven by generated histories (operands resolved modulo the length), "
+            "after each step forward and backward traversal, len(), head/tail and all links are compared with a list of "
+            "node objects by identity. Lists of 400..3000 equal payloads are operated on deep nodes. All histories of "
+            "length<=3 on <=3 equal payloads are enumerated.",
+            "Only nodes belonging to the list are passed (as the statement says).",
+            "DESIGN.md §4 C08"),
     "C19": ("E5+E1", "exploration",
             "bounded-exhaustive enumeration + Hypothesis-generated inputs against brute-force reference definitions",
             "Every integer 1..3999, every needle/haystack pair over a 2-letter alphabet up to (4,7), every (n,batch_size) "
